@@ -116,7 +116,9 @@ fn run_case(case: &Value) -> Value {
         let mut held: Vec<&str> = Vec::new();
         // "take": stop after this many items and DROP the unfinished stream, then re-read what is held
         let take = case.get("take").and_then(|t| t.as_u64()).map(|t| t as usize).unwrap_or(n + 2);
-        'outer: for _ in 0..take.min(n + 2) {
+        // replies that say "continues" do not finish their call: more items than calls
+        let cap = case.get("items").and_then(|t| t.as_u64()).map(|t| t as usize).unwrap_or(n + 2);
+        'outer: for _ in 0..take.min(cap) {
             let reads0 = sh.borrow().reads;
             loop {
                 let mut nx = stream.next();
@@ -169,7 +171,7 @@ fn run_case(case: &Value) -> Value {
             drop(stream);
             let v: Vec<String> = held.iter().map(|s| hex(s.as_bytes())).collect();
             after_stuck["views_after_drop"] = json!(v);
-        } else if take < n + 2 {
+        } else if take < cap {
             // the unfinished stream is dropped while earlier items are still held
             drop(stream);
             let views: Vec<String> = held.iter().map(|s| hex(s.as_bytes())).collect();
